@@ -42,6 +42,9 @@ func Alts(n int) int {
 }
 
 // Keys returns the keys of m in the order chosen by the explorer.
+// Zero declares the loop variables of a rewritten range statement with the map's key and value types.
+func Zero[M ~map[K]V, K comparable, V any](m M) (k K, v V) { return }
+
 func Keys[M ~map[K]V, K comparable, V any](m M) []K {
 	n := len(m)
 	if n == 0 {
